@@ -19,8 +19,24 @@ def p2_term(c):
     st = "; ".join("(%s, %s, %s, %d)" % (coq_natlist(s["ok"]), coq_natlist(s["got"]), coq_bool(s["spent"]), s["probe"]) for s in c["streams"])
     return "([%s], [%s], %d, %s)" % (sl, st, c["ends"], coq_bool(c["done"]))
 
+def coq_ev(n):
+    n = int(n)
+    return "Direct %d" % n if n < 1000 else "Emitted %d %d" % ((n - 1000) // 100, (n - 1000) % 100)
+def coq_evlist(xs): return "[" + "; ".join(coq_ev(x) for x in xs) + "]"
+
+def core_term(c):
+    p3 = "(%s, %s, [%s], [%s], %s)" % (c["p3labels"], coq_evlist(c["log"]), "; ".join(coq_evlist(v) for v in c["views"]),
+                                       "; ".join("(%d, %d)" % (k, n) for k, n in c["sent"]), coq_natlist(c["directs"]))
+    p1 = "(%s, %s, [%s], (%d, %d, %d, %d), %d, %s)" % (c["p1labels"], coq_natlist(c["expected_effects"]),
+                                                      "; ".join("(%d, %d)" % (t, e) for t, e in c["returned"]),
+                                                      c["lens"][0], c["lens"][1], c["lens"][2], c["lens"][3], c["probe_effects"], coq_bool(c["probes_ok"]))
+    return "(%s, %s)" % (p3, p1)
+
 PROTOS = {
     "P2": dict(term=p2_term, typ="p2case", fn="p2_verdicts"),
+    "P3": dict(term=core_term, typ="ccase", fn="core_verdicts"),
+    "P1": dict(term=core_term, typ="ccase", fn="core_verdicts"),
+    "P1F": dict(term=core_term, typ="ccase", fn="core_verdicts"),
 }
 
 def nontrivial(c):
@@ -53,7 +69,7 @@ def evaluate(run, cases):
     texts, index = [], []
     for sh in range(nsh):
         t = ["From Coq Require Import List Arith Bool NArith. Import ListNotations.",
-             "From Crux Require Import Conc.Waker Conc.Check."]
+             "From Crux Require Import Conc.Events Conc.Slots Conc.Waker Conc.Check."]
         idx = []
         for proto in sorted(by):
             ids = by[proto][sh::nsh]
